@@ -11,7 +11,8 @@
 (* the document has been encoded (what the code does today).                 *)
 (***************************************************************************)
 EXTENDS Naturals, Integers, Sequences, FiniteSets, TLC, Json
-CONSTANTS Writers, Targets0, ConvOutcomes, Faults, Flavours, FsFaults, HaveLibreOffice, EncodeBeforeOpen, ConverterKinds
+CONSTANTS Writers, Targets0, ConvOutcomes, Faults, Flavours, FsFaults, HaveLibreOffice, EncodeBeforeOpen, ConverterKinds,
+          PriorSet      \* "none" | "export_edit": the same document object was exported before and a component was then edited in place
 \* ConverterKinds: "stub" (an object with a convert method), "default" (converter=None, no LibreOffice installed),
 \*   "real" (LibreOfficeConverter(executable_path=...) driving an external program), "onpath" (converter=None, the
 \*   program is found on PATH); the program of "real"/"onpath" is the environment process of Converter.tla
@@ -22,10 +23,10 @@ vars == <<sc, d, pc, target, parent, tmp, files, res, err, touched>>
 \* tmp: set of live temporary directories; files: files inside them; res: resource dir beside target
 \* touched: sequence of steps at which the target path was written (for TargetOnlyByLastStep)
 
-Sc0 == [writer |-> "rtf", target0 |-> "absent", conv |-> "ok", fault |-> 0, flavour |-> "base", converter |-> "stub", fsfault |-> 0]
+Sc0 == [writer |-> "rtf", target0 |-> "absent", conv |-> "ok", fault |-> 0, flavour |-> "base", converter |-> "stub", fsfault |-> 0, prior |-> "none"]
 Init == /\ sc = Sc0 /\ d = 1 /\ pc = "pick"
         /\ target = "absent" /\ parent = "present" /\ tmp = {} /\ files = {} /\ res = FALSE /\ err = "none" /\ touched = <<>>
-Pick == /\ pc = "pick" /\ d <= 7
+Pick == /\ pc = "pick" /\ d <= 8
         /\ CASE d = 1 -> \E v \in Writers : sc' = [sc EXCEPT !.writer = v]
              [] d = 2 -> \E v \in Targets0 : sc' = [sc EXCEPT !.target0 = v]
              [] d = 3 -> \E v \in (IF sc.writer = "rtf" THEN {"stub"} ELSE ConverterKinds) : sc' = [sc EXCEPT !.converter = v]
@@ -36,8 +37,10 @@ Pick == /\ pc = "pick" /\ d <= 7
                            sc' = [sc EXCEPT !.conv = v]
              \* an OSError raised by the fsfault-th file-system operation of the export (0 = none)
              [] d = 7 -> \E v \in (IF sc.fault # 0 \/ sc.conv # "ok" THEN {0} ELSE {0} \cup FsFaults) : sc' = [sc EXCEPT !.fsfault = v]
+             \* the export under test may be the second one of this document object (state carried between calls)
+             [] d = 8 -> \E v \in (IF sc.fault # 0 \/ sc.fsfault # 0 \/ sc.conv # "ok" \/ sc.converter \notin {"stub"} THEN {"none"} ELSE PriorSet) : sc' = [sc EXCEPT !.prior = v]
         /\ d' = d + 1 /\ UNCHANGED <<pc, target, parent, tmp, files, res, err, touched>>
-Start == /\ pc = "pick" /\ d = 8 /\ pc' = "mkparent"
+Start == /\ pc = "pick" /\ d = 9 /\ pc' = "mkparent"
          /\ target' = (IF sc.target0 = "old" THEN "old" ELSE "absent")
          /\ parent' = (IF sc.target0 = "missingdir" THEN "missing" ELSE "present")
          /\ UNCHANGED <<sc, d, tmp, files, res, err, touched>>
